@@ -354,3 +354,117 @@ func permutations(n int) [][]int {
 	}
 	return out
 }
+
+// ---------------------------------------------------------------- huge languages on few nodes
+//
+// numWords is a field of its own in every record; to take it (and the ranks) across the
+// boundaries of the integer encoding up to 2^63-1 the language must be that large.  A layered
+// automaton does it on a few dozen nodes: level i is one node with b_i links (distinct labels),
+// all to the node of level i+1, so numWords(i) = final_i + b_i * numWords(i+1): only the leaf
+// final and b = 2 gives 1, 2, 4, ..., 2^62; every level final gives 1, 3, 7, ..., 2^63-1.  Such a
+// case is observed through counts and the ranks of probe words only (o=p).
+
+// powerLanguage returns the nodes in preorder (level order here) and some probe words.
+func powerLanguage(r *hx.Rng, finals int, wide bool) ([]*fnode, [][]byte) {
+	var levels []*fnode // built from the leaf upwards
+	leaf := &fnode{final: true}
+	levels = append(levels, leaf)
+	total := uint64(1)
+	limit := uint64(1) << 62
+	if finals == 1 {
+		limit = 1<<63 - 1
+	}
+	for len(levels) < 130 {
+		b := 2
+		if wide && r.Chance(1, 6) {
+			b = 3
+		}
+		if r.Chance(1, 8) && finals != 1 && finals != 0 {
+			b = 1
+		}
+		f := finals == 1 || (finals == 2 && r.Bool())
+		fv := uint64(0)
+		if f {
+			fv = 1
+		}
+		if total > (limit-fv)/uint64(b) {
+			break
+		}
+		total = fv + uint64(b)*total
+		n := &fnode{final: f, labels: byteSubset(r, b)}
+		for range n.labels {
+			n.kids = append(n.kids, levels[len(levels)-1])
+		}
+		levels = append(levels, n)
+	}
+	// root first
+	for i, j := 0, len(levels)-1; i < j; i, j = i+1, j-1 {
+		levels[i], levels[j] = levels[j], levels[i]
+	}
+	order := preorder(levels[0])
+	// probes: paths of random length (words when they stop on a final level), the first and the
+	// last word, and some non-words
+	var probes [][]byte
+	path := func(n int, pick func(lab []byte) byte) []byte {
+		w := []byte{}
+		for i := 0; i < n && i < len(levels)-1; i++ {
+			w = append(w, pick(levels[i].labels))
+		}
+		return w
+	}
+	depth := len(levels) - 1
+	probes = append(probes, path(depth, func(l []byte) byte { return l[0] }), path(depth, func(l []byte) byte { return l[len(l)-1] }))
+	for i := 0; i < 6; i++ {
+		n := depth
+		if i%2 == 1 {
+			n = r.Range(0, depth)
+		}
+		probes = append(probes, path(n, func(l []byte) byte { return l[r.Intn(len(l))] }))
+	}
+	bad := path(depth, func(l []byte) byte { return l[0] })
+	if len(bad) > 0 {
+		bad[r.Intn(len(bad))] ^= 0x5a
+		probes = append(probes, bad, append(path(depth, func(l []byte) byte { return l[0] }), 'x'))
+	}
+	return order, probes
+}
+
+// numberAndWrite gives the nodes (in preorder) ids by order and value scheme and writes the stream.
+func numberAndWrite(r *hx.Rng, order []*fnode, ord, val int) []byte {
+	vals := idValues(len(order), val, r)
+	order[0].id = vals[0]
+	for i, n := range rankOrder(order, ord, r) {
+		n.id = vals[i+1]
+	}
+	return writeStream(order)
+}
+
+// varintLadder: the values around every boundary of the integer encoding (1 byte up to 127, then
+// one more byte per factor 256), ascending.
+func varintLadder() []uint64 {
+	set := map[uint64]bool{0: true, 1: true, ^uint64(0): true, ^uint64(0) - 1: true}
+	for _, e := range []uint{7, 8, 14, 15, 16, 21, 24, 28, 31, 32, 35, 40, 42, 48, 49, 56, 63} {
+		for d := -1; d <= 1; d++ {
+			set[uint64(1)<<e+uint64(d)] = true
+		}
+	}
+	var vals []uint64
+	for v := range set {
+		vals = append(vals, v)
+	}
+	sort.Slice(vals, func(a, b int) bool { return vals[a] < vals[b] })
+	return vals
+}
+
+// streamWithIDs: the minimal automaton of ws; the root gets ids[0], the other nodes the next
+// values in the given order scheme (ids ascending, at least as many as nodes).
+func streamWithIDs(r *hx.Rng, ws [][]byte, ids []uint64, ord int) []byte {
+	root := buildTrie(ws)
+	merge(root, 1, nil)
+	order := preorder(root)
+	order[0].id = ids[0]
+	for i, n := range rankOrder(order, ord, r) {
+		n.id = ids[i+1]
+	}
+	return writeStream(order)
+}
